@@ -78,6 +78,11 @@ func CreatePodFromDaemonSetReplicaSet(scheme *runtime.Scheme, replicaset *datado
 
 func overwriteResourcesFromEdsNode(template *corev1.PodTemplateSpec, edsNode *datadoghqv1alpha1.ExtendedDaemonsetSetting) {
 	if edsNode == nil {
+		// no ExtendedDaemonsetSetting applies: labels naming one that the template itself carries (e.g. copied
+		// from a running pod) would make the pod look like it was created with a setting that is gone
+		delete(template.Labels, datadoghqv1alpha1.ExtendedDaemonSetSettingNameLabelKey)
+		delete(template.Labels, datadoghqv1alpha1.ExtendedDaemonSetSettingNamespaceLabelKey)
+
 		return
 	}
 	for _, extraConfig := range edsNode.Spec.Containers {
